@@ -8,6 +8,7 @@
 
 """Utility functions for images."""
 
+import os
 import sys
 from enum import Enum
 from functools import lru_cache
@@ -147,7 +148,23 @@ def fit_into_array(
     return output
 
 
-@lru_cache(maxsize=128)  # One must add parameter 'maxsize' for Python 3.7
+def _get_file_signature(filename: str | Path) -> tuple[str, int, int] | None:
+    """Identify the current content of a local file.
+
+    The signature changes when the file is rewritten or replaced (or when the working
+    directory is changed). It is ``None`` when ``filename`` is not a local file (e.g. an URL).
+    """
+    from pyxel.util.fileutil import resolve_with_working_directory
+
+    try:
+        full_filename = Path(resolve_with_working_directory(filename)).expanduser()
+        stat: os.stat_result = full_filename.stat()
+    except (OSError, ValueError):
+        return None
+
+    return str(full_filename.resolve()), stat.st_mtime_ns, stat.st_size
+
+
 def load_cropped_and_aligned_image(
     shape: tuple[int, ...],
     filename: str | Path,
@@ -178,6 +195,32 @@ def load_cropped_and_aligned_image(
     -------
     cropped_and_aligned_image: ndarray
     """
+    # The result is memoised. The signature of the file is part of the key, a file modified
+    # since the last call is therefore loaded again.
+    return _load_cropped_and_aligned_image(
+        shape=tuple(shape),
+        filename=filename,
+        position_x=position_x,
+        position_y=position_y,
+        align=align,
+        allow_smaller_array=allow_smaller_array,
+        file_signature=_get_file_signature(filename),
+    )
+
+
+@lru_cache(maxsize=128)  # One must add parameter 'maxsize' for Python 3.7
+def _load_cropped_and_aligned_image(
+    shape: tuple[int, ...],
+    filename: str | Path,
+    position_x: int,
+    position_y: int,
+    align: (
+        Literal["center", "top_left", "top_right", "bottom_left", "bottom_right"] | None
+    ),
+    allow_smaller_array: bool,
+    file_signature: tuple[str, int, int] | None,
+) -> np.ndarray:
+    """Load image from file and fit to detector shape (memoised on all its parameters)."""
     # Load 2d image (which can be smaller or
     #                         larger in dimensions than detector imaging area)
     from pyxel.inputs import load_image
